@@ -12,7 +12,12 @@ Bounded exhaustive input enumeration on the real Serializer / payload classes:
   in a datagram (``unpack_serializable_list`` at offset 23), nested as ``payload`` between two sentinel fields,
   and inside a ``payload-list`` of one and of two items;
 * every registered packer directly (``Packer.pack/unpack``, ``Serializer.pack/unpack``) at offsets 0, 1, 23;
-* ``CellPayload.to_bin / from_bin``.
+* ``CellPayload.to_bin / from_bin``;
+* co-resident overlays (mc/ref/c02_sandbox.py): real instances of every shipped overlay class, alone, in every ordered
+  pair, side by side in every construction order, and next to an application overlay that registers its own packer
+  under each known format name (constructed before and after): what an overlay's serializer does with every format
+  and every message class must be identical to the same overlay living alone, and constructing overlays must not
+  change ``default_serializer``'s packer table.
 
 Oracle (per position): (i) decoded attributes equal what was put in, (ii) the returned offset is exactly start +
 length of the encoding (end of buffer for ``raw``-terminated types), (iii) re-encoding the decoded object gives
@@ -31,6 +36,7 @@ from ipv8.messaging.payload_headers import BinMemberAuthenticationPayload, Globa
 
 from .. import core, fixtures
 from ..ref import c02_domain as dom
+from ..ref import c02_sandbox as sandbox
 from ..ref import c02_wire as wire
 
 LEVEL = "exploration"
@@ -534,6 +540,11 @@ def _worker(chunk: list) -> list:
                 res["evaluations"] += n
                 if found:
                     _merge(res["findings"], found, {"kind": "packer", "format": fmt, "value": desc}, dom.desc_size(desc))
+            elif kind == "sandbox":
+                res["spec"] = "co-resident overlays"
+                res["sandbox"] = (item[1], sandbox.run_config(item[1]))
+                if "crash" in res["sandbox"][1]:
+                    res["crash"] = f"{item!r}\n{res['sandbox'][1]['crash']}"
             elif kind == "cell":
                 res["spec"] = "CellPayload"
                 for case in item[1]:
@@ -576,6 +587,7 @@ def plan(ctx: core.Ctx) -> tuple[list, dict]:
         items.extend(("packer", fmt, i) for i in range(len(dom.alphabet_for(fmt))))
     cells = cell_cases()
     items.extend(("cell", cells[i:i + 16]) for i in range(0, len(cells), 16))
+    items.extend(("sandbox", steps) for steps in sandbox.configurations(ctx.thorough))
     return items, modes
 
 
@@ -620,6 +632,26 @@ def keys_from(findings: dict) -> list[core.Violation]:
     return [core.Violation(key, what, replay) for key, (order, what, replay) in sorted(folded.items())]
 
 
+def sandbox_verdicts(observed: list) -> tuple[list, dict]:
+    """Compare every configuration with its overlays living alone; one violation (smallest configuration) per key."""
+    baselines = {steps[0][1]: obs["overlays"][0][1] for steps, obs in observed if len(steps) == 1}
+    best: dict[str, tuple] = {}
+    shapes: dict[str, int] = {}
+    for steps, obs in observed:
+        shape = "+".join(kind for kind, _ in steps)
+        shapes[shape] = shapes.get(shape, 0) + 1
+        for key, what in sandbox.compare(steps, obs, baselines):
+            order = (len(steps), json.dumps(steps))
+            if key not in best or order < best[key][0]:
+                best[key] = (order, what, {"kind": "sandbox", "steps": steps})
+    cov = {"configurations": len(observed), "by_shape": dict(sorted(shapes.items())),
+           "overlay_classes": sandbox.overlay_names(), "intruder_format_names": len(sandbox.intruder_formats()),
+           "orders": "every ordered pair of shipped overlays; intruder before and after; all permutations of "
+                     f"{sorted({a for st, _ in observed if len(st) > 2 for _, a in st})}",
+           "configurations_differing_from_baseline": sum(1 for st, ob in observed if sandbox.compare(st, ob, baselines))}
+    return [core.Violation(k, what, rep) for k, (_o, what, rep) in sorted(best.items())], cov
+
+
 def run(ctx: core.Ctx) -> core.Report:  # noqa: C901, PLR0912, PLR0915
     b = bounds(ctx)
     items, modes = plan(ctx)
@@ -627,12 +659,18 @@ def run(ctx: core.Ctx) -> core.Report:  # noqa: C901, PLR0912, PLR0915
     findings: dict = {}
     crashes: list[str] = []
     totals = {"instances": 0, "evaluations": 0, "nontrivial": 0, "skipped": 0}
+    observed: list = []
     with core.Pool(_worker, ctx.jobs) as pool:
         for results in pool.map_chunks(core.chunks(items, 4)):
             for res in results:
                 if res["crash"]:
                     crashes.append(res["crash"])
                     continue
+                if "sandbox" in res:
+                    observed.append(res["sandbox"])
+                    res["instances"] = 1
+                    res["evaluations"] = sum(len(fp["formats"]) + len(fp["messages"])
+                                             for _name, fp in res["sandbox"][1]["overlays"])
                 row = per.setdefault(res["spec"], {"instances": 0, "evaluations": 0, "nontrivial": 0, "min_len": None,
                                                   "max_len": None})
                 for k in ("instances", "evaluations", "nontrivial"):
@@ -651,6 +689,8 @@ def run(ctx: core.Ctx) -> core.Report:  # noqa: C901, PLR0912, PLR0915
         raise SystemExit(2)
 
     violations = keys_from(findings)
+    sandbox_violations, sandbox_cov = sandbox_verdicts(observed)
+    violations.extend(sandbox_violations)
     ser = dom.serializer()
     registered = ser.get_available_formats()
     for fmt in wire.DOCUMENTED_FORMATS:
@@ -699,6 +739,7 @@ def run(ctx: core.Ctx) -> core.Report:  # noqa: C901, PLR0912, PLR0915
         "packers_unknown_to_reference": unknown_formats,
         "custom_packers": {k: v for k, v in dom.packer_sources().items() if v != "default"},
         "per_class": {k: {**v, "mode": modes.get(k, "alphabet")} for k, v in sorted(per.items())},
+        "co_resident_overlays": sandbox_cov,
         "distinct_failing_checks": len(findings),
         "explanation": "bounded exhaustive enumeration of boundary instances of every Serializable class and packer; "
                        "oracle = field equality + exact end offset + identical re-encoding + bytes equal to an "
@@ -716,6 +757,10 @@ def run(ctx: core.Ctx) -> core.Report:  # noqa: C901, PLR0912, PLR0915
         "flags are compared as ascending lists of distinct powers of two",
         "arrays (arrayH-*) are held to the sentence 'all values are big-endian' of the documented table",
         "CellPayload.unwrap and the ez_pack helpers of EZPackOverlay are not part of this check",
+        "co-resident overlays: an overlay is compared with an instance of the same class constructed alone in a fresh "
+        "(forked) process; extra format names visible in a serializer are not a violation by themselves, a changed "
+        "default_serializer table is (doc/reference/serialization.rst: the Serializer of get_serializer() is sandboxed "
+        "per Community instance); overlays are constructed, not run: no traffic is exchanged in this sub-check",
     ]
     return core.Report(LEVEL, cov, violations, assumptions)
 
@@ -739,6 +784,16 @@ def replay(ctx: core.Ctx, data: dict) -> list:
         _merge(findings, found, data, 0)
     elif kind == "cell":
         _merge(findings, evaluate_cell(data["case"]), data, 0)
+    elif kind == "sandbox":
+        steps = [list(st) for st in data["steps"]]
+        observed = [([["overlay", arg]], sandbox.run_config([["overlay", arg]]))
+                    for arg in sorted({a for k, a in steps if k == "overlay"})]
+        if len(steps) > 1:
+            observed.append((steps, sandbox.run_config(steps)))
+        for _st, obs in observed:
+            if "crash" in obs:
+                raise RuntimeError(obs["crash"])
+        return sandbox_verdicts(observed)[0]
     elif kind == "registry":
         if data["format"] not in dom.serializer().get_available_formats():
             return [core.Violation(f"registry:missing:{data['format']}", "documented data type is not registered")]
